@@ -76,6 +76,29 @@ def _flatten_add(x):
     return [x]
 
 
+def escaper_failures(ctx, rule):
+    """Evaluate the text escaper (abstractly, in the analyser's evaluator) over an adversarial alphabet.
+    -> (escaper FuncInfo, samples, [(source, got, expected)])"""
+    import itertools as _it
+    esc_fn = ctx.func("pyxform.utils:escape_text_for_xml", rule)
+    it = ctx.interp(rule)
+    samples = ["", "x", "plain ]]> \"q\" 'r'", "&amp;", "AT&amp;T", "&lt;b&gt;bold&lt;/b&gt;", "&#65;", "&#x41;", "&quot;", "&apos;", "a]]>b", "<!-- c -->", "<![CDATA[x]]>",
+               "\U0001F600 & \u05d0", "&&", "&amp", "& amp;"]
+    for n in (1, 2, 3):
+        samples += ["".join(t) for t in _it.product("&<>;#a", repeat=n)]
+    bad = []
+    for src in samples:
+        exp = src.replace("&", "&amp;").replace("<", "&lt;").replace(">", "&gt;")
+        it.reset([])
+        try:
+            got = it.call_function(esc_fn, [], {"text": src}, None, esc_fn.node)
+        except Raised as e:
+            got = f"raises {e.exc_name}"
+        if got != exp:
+            bad.append((src, got, exp))
+    return esc_fn, samples, bad
+
+
 def run(ctx):
     repo = ctx.repo
     rules = []
@@ -266,21 +289,28 @@ def run(ctx):
     # ------------------------------------------------------------------ R5
     r5 = Rule("C06", "C06.R5", "escaper table and single pass", floor=5,
               necessary="a missing or doubly applied entity corrupts text for every label containing that character")
-    subs = ctx.consts.get("pyxform.utils", "XML_TEXT_SUBS", "C06.R5")
-    table = ctx.consts.get("pyxform.utils", "XML_TEXT_TABLE", "C06.R5")
     want = {"&": "&amp;", "<": "&lt;", ">": "&gt;"}
-    for ch, ent in want.items():
-        r5.check(subs.get(ch) == ent, f"XML_TEXT_SUBS[{ch!r}]", f"maps to {ent}", "pyxform/utils.py", why_fail=f"got {subs.get(ch)!r}")
-    r5.check(set(subs) <= set(want) | {'"', "'"} and isinstance(table, dict) and table == str.maketrans(subs), "XML_TEXT_TABLE",
-             "translate table is built from exactly that mapping (no other character is rewritten in text)", "pyxform/utils.py")
-    esc_fn = ctx.func("pyxform.utils:escape_text_for_xml", "C06.R5")
-    it = ctx.interp("C06.R5")
-    # one representative per character class of the finite abstract alphabet {&, <, >, other}, plus an already-escaped entity
-    for src, exp in (("a&b", "a&amp;b"), ("a<b", "a&lt;b"), ("a>b", "a&gt;b"), ("plain ]]> \"q\" 'r'", "plain ]]&gt; \"q\" 'r'"),
-                     ("&amp;", "&amp;amp;"), ("", ""), ("x", "x")):
-        it.reset([])
-        got = it.call_function(esc_fn, [], {"text": src}, None, esc_fn.node)
-        r5.check(got == exp, f"escape_text_for_xml[{src!r}]", f"single-pass result {exp!r}", esc_fn.loc(), why_fail=f"got {got!r}")
+    # the table is an implementation detail (checked when it exists); the decision is the escaper's behaviour over an
+    # adversarial alphabet, evaluated abstractly: every string of length <= 3 over {& < > ; # a} plus entity-like,
+    # CDATA-end and comment-like sequences, against the XML 1.0 text-escaping rule (single pass, every & escaped)
+    try:
+        subs = ctx.consts.get("pyxform.utils", "XML_TEXT_SUBS", "C06.R5")
+        table = ctx.consts.get("pyxform.utils", "XML_TEXT_TABLE", "C06.R5")
+    except AnalysisError:
+        subs = table = None
+    if isinstance(subs, dict) and table is not None:
+        for ch, ent in want.items():
+            r5.check(subs.get(ch) == ent, f"XML_TEXT_SUBS[{ch!r}]", f"maps to {ent}", "pyxform/utils.py", why_fail=f"got {subs.get(ch)!r}")
+        r5.check(set(subs) <= set(want) | {'"', "'"} and isinstance(table, dict) and table == str.maketrans(subs), "XML_TEXT_TABLE",
+                 "translate table is built from exactly that mapping (no other character is rewritten in text)", "pyxform/utils.py")
+    else:
+        r5.note("escaper no longer uses the XML_TEXT_SUBS/XML_TEXT_TABLE pair; decided on the evaluated behaviour alone")
+    esc_fn, samples, bad = escaper_failures(ctx, "C06.R5")
+    r5.check(not bad, "escape_text_for_xml[adversarial alphabet]", f"{len(samples)} strings: every &, < and > is escaped exactly once, nothing else changes", esc_fn.loc(),
+             why_fail="; ".join(f"{a!r} -> {b!r} (expected {c!r})" for a, b, c in bad[:3]))
+    for src in ("a&b", "a<b", "a>b", "&amp;", "]]>"):
+        exp = src.replace("&", "&amp;").replace("<", "&lt;").replace(">", "&gt;")
+        r5.check(not any(b[0] == src for b in bad), f"escape_text_for_xml[{src!r}]", f"single-pass result {exp!r}", esc_fn.loc())
     rules.append(r5)
 
     # ------------------------------------------------------------------ R9 (node factory)
